@@ -62,7 +62,19 @@ MaskCases == UNION {{[kind |-> "mask", tag |-> Ref.masks[i][1], name |-> Ref.mas
 PairOf(m, k, j) == [kind |-> "mask2", tag |-> m[1], name |-> m[2], value |-> m[3][k][1] + m[3][j][1], vname |-> m[3][k][2] \o "|" \o m[3][j][2]]
 MaskPairCases == UNION {UNION {{PairOf(Ref.masks[i], k, j) : j \in {x \in Idx(Ref.masks[i][3]) : x > k /\ (x = k + 1 \/ x = Len(Ref.masks[i][3]))}}
                                  : k \in Idx(Ref.masks[i][3])} : i \in Idx(Ref.masks)}
-Cases == TagCases \cup EnumCases \cup MaskCases \cup MaskPairCases
+\* names of values looked up in an enumeration they were not registered in: names of the two neighbouring enumerations and
+\* strings that look like hexadecimal numbers without the 0x prefix. A name denotes a value only in the scope it was registered in.
+Lookalikes == {"EC", "CBC", "ECB", "CFB", "Bad", "FACE", "DeadBeef", "ABCDEF", "A", "Ab", "fade", "B0B", "C4", "00FF", "1F"}
+NamesOf(e) == {e[3][k][2] : k \in Idx(e[3])}
+ValueByName(e, n) == e[3][CHOOSE k \in Idx(e[3]) : e[3][k][2] = n][1]
+Neighbour(i, d) == Ref.enums[((i - 1 + d) % Len(Ref.enums)) + 1]
+NameCases == UNION {
+   LET e == Ref.enums[i] IN
+        {[kind |-> IF n \in NamesOf(e) THEN "name-in-scope" ELSE "name-out-of-scope", tag |-> e[1], name |-> e[2],
+          value |-> IF n \in NamesOf(e) THEN ValueByName(e, n) ELSE 0, vname |-> n]
+            : n \in Lookalikes \cup NamesOf(Neighbour(i, 1)) \cup NamesOf(Neighbour(i, 2))}
+   : i \in Idx(Ref.enums)}
+Cases == TagCases \cup EnumCases \cup MaskCases \cup MaskPairCases \cup NameCases
 
 Init == c \in Cases
 Next == UNCHANGED c
